@@ -144,6 +144,11 @@ def case_scaled(ctx, kind):
     ctx.equal("flux_of_position_is_dim_times_volume", flux, d * np.asarray(vol.dV).sum(), tol=1e-9, box=BOX)
     n = np.asarray(bnd.normals)
     ctx.equal("normals_are_unit_vectors", sum(n[i] * n[i] for i in range(d)), np.ones(n.shape[1:], dtype=int), box=BOX)
+    # both in-face tangents are unit vectors orthogonal to the normal (the distorted faces have different edge lengths)
+    for k, t in enumerate(bnd.tangents):
+        t = np.asarray(t)
+        ctx.equal("tangent_%d_unit" % k, sum(t[i] * t[i] for i in range(d)), np.ones(n.shape[1:], dtype=int), tol=1e-9, box=BOX)
+        ctx.equal("tangent_%d_orthogonal_to_normal" % k, sum(t[i] * n[i] for i in range(d)), np.zeros(n.shape[1:], dtype=int), tol=1e-9, box=BOX)
 
 
 def case_outward_quad(ctx):
